@@ -851,6 +851,76 @@ def _module_tables(tree: ast.Module) -> Dict[str, ast.expr]:
             and (_literal_node(v) or (all(isinstance(r, (ast.Tuple, ast.List)) for r in v.elts) and _tableish_node(v)))}
 
 
+_DICT_MUTATORS = {"update", "pop", "popitem", "setdefault", "clear", "__setitem__", "__delitem__"}
+
+
+def _inline_constant_dict_copies(tree: ast.Module) -> None:
+    """NAME = {...} bound once at module level and never written through (no NAME[k] = v, del NAME[k], NAME.update(...) ...):
+    a *copy* of it - dict(NAME), NAME.copy(), copy.copy(NAME), copy.deepcopy(NAME), {**NAME} - is the display itself."""
+    count: Dict[str, int] = {}
+    val: Dict[str, ast.Dict] = {}
+    for st in tree.body:
+        tgt = v = None
+        if isinstance(st, ast.Assign) and len(st.targets) == 1 and isinstance(st.targets[0], ast.Name):
+            tgt, v = st.targets[0].id, st.value
+        elif isinstance(st, ast.AnnAssign) and isinstance(st.target, ast.Name) and st.value is not None:
+            tgt, v = st.target.id, st.value
+        if tgt:
+            count[tgt] = count.get(tgt, 0) + 1
+            if isinstance(v, ast.Dict) and all(k is not None for k in v.keys):
+                val[tgt] = v
+    cands = {k: v for k, v in val.items() if count[k] == 1}
+    if not cands:
+        return
+    for n in ast.walk(tree):
+        if isinstance(n, (ast.Global, ast.Nonlocal)):
+            for g in n.names:
+                cands.pop(g, None)
+        if isinstance(n, ast.Subscript) and isinstance(n.ctx, (ast.Store, ast.Del)) and isinstance(n.value, ast.Name):
+            cands.pop(n.value.id, None)
+        if isinstance(n, ast.Call) and isinstance(n.func, ast.Attribute) and isinstance(n.func.value, ast.Name) \
+                and n.func.attr in _DICT_MUTATORS:
+            cands.pop(n.func.value.id, None)
+        if isinstance(n, ast.AugAssign) and isinstance(n.target, ast.Name):
+            cands.pop(n.target.id, None)
+    if not cands:
+        return
+
+    def is_c(e):
+        return isinstance(e, ast.Name) and e.id in cands and isinstance(e.ctx, ast.Load)
+
+    class T(ast.NodeTransformer):
+        def visit_Call(self, c):
+            self.generic_visit(c)
+            f = c.func
+            if isinstance(f, ast.Name) and f.id == "dict" and len(c.args) == 1 and not c.keywords and is_c(c.args[0]):
+                return ast.copy_location(copy.deepcopy(cands[c.args[0].id]), c)
+            if isinstance(f, ast.Attribute) and f.attr == "copy" and not c.args and not c.keywords and is_c(f.value):
+                return ast.copy_location(copy.deepcopy(cands[f.value.id]), c)
+            if isinstance(f, ast.Attribute) and f.attr in ("copy", "deepcopy") and isinstance(f.value, ast.Name) and f.value.id == "copy" \
+                    and len(c.args) == 1 and not c.keywords and is_c(c.args[0]):
+                return ast.copy_location(copy.deepcopy(cands[c.args[0].id]), c)
+            return c
+
+        def visit_Dict(self, d):
+            self.generic_visit(d)
+            keys, values = [], []
+            for k, v in zip(d.keys, d.values):
+                if k is None and is_c(v):
+                    src = copy.deepcopy(cands[v.id])
+                    keys.extend(src.keys)
+                    values.extend(src.values)
+                else:
+                    keys.append(k)
+                    values.append(v)
+            d.keys, d.values = keys, values
+            return d
+    for node in tree.body:
+        if isinstance(node, (ast.FunctionDef, ast.ClassDef)):
+            T().visit(node)
+    ast.fix_missing_locations(tree)
+
+
 def _expand_table_comprehensions(tree: ast.Module, tables: Dict[str, ast.expr]) -> None:
     """{f(k): v for k in TABLE} / [f(k) for k in TABLE] over a module-level literal table become displays; f-strings whose
     parts are all constants are folded; {**{...literal...}, ...} is spliced."""
@@ -933,6 +1003,181 @@ def _expand_table_comprehensions(tree: ast.Module, tables: Dict[str, ast.expr]) 
     ast.fix_missing_locations(tree)
 
 
+class _JoinSingle(ast.NodeTransformer):
+    """os.path.join(x) with one plain argument is x."""
+
+    def visit_Call(self, c):
+        self.generic_visit(c)
+        if isinstance(c.func, ast.Attribute) and c.func.attr == "join" and isinstance(c.func.value, ast.Attribute) \
+                and c.func.value.attr == "path" and isinstance(c.func.value.value, ast.Name) and c.func.value.value.id == "os" \
+                and len(c.args) == 1 and not c.keywords and not isinstance(c.args[0], ast.Starred):
+            return c.args[0]
+        return c
+
+
+def _inline_expression_closures(fn: ast.FunctionDef) -> bool:
+    """def g(a, *rest): return EXPR   nested in `fn` (no decorators, defaults or keyword-only parameters; `g` bound once and
+    only ever called with plain positional arguments; the enclosing function's names that EXPR reads are bound at most once in
+    it): every call g(x, y, z) is EXPR with a := x and `*rest` spelled out as y, z.  The closure itself is removed."""
+    changed = False
+    for g in [n for n in fn.body if isinstance(n, ast.FunctionDef)]:
+        body = _body_wo_doc(g)
+        a = g.args
+        if len(body) != 1 or not isinstance(body[0], ast.Return) or body[0].value is None or g.decorator_list \
+                or a.defaults or a.kwonlyargs or a.kwarg or a.posonlyargs:
+            continue
+        expr = body[0].value
+        if any(isinstance(n, (ast.Lambda, ast.Yield, ast.YieldFrom, ast.Await, ast.NamedExpr, ast.ListComp, ast.SetComp,
+                              ast.DictComp, ast.GeneratorExp)) for n in ast.walk(expr)):
+            continue
+        params = [x.arg for x in a.args]
+        var = a.vararg.arg if a.vararg else None
+        # uses of g in the enclosing function
+        uses = [n for n in ast.walk(fn) if isinstance(n, ast.Name) and n.id == g.name and not any(n is m for m in ast.walk(g))]
+        calls = [c for c in ast.walk(fn) if isinstance(c, ast.Call) and isinstance(c.func, ast.Name) and c.func.id == g.name
+                 and not any(c is m for m in ast.walk(g))]
+        if not calls or len(uses) != len(calls) or any(c.keywords or any(isinstance(x, ast.Starred) for x in c.args) for c in calls):
+            continue
+        if any((len(c.args) < len(params)) or (len(c.args) > len(params) and var is None) for c in calls):
+            continue
+        # *rest may only be forwarded as *rest
+        if var is not None:
+            starred_ok = {id(n.value) for n in ast.walk(expr) if isinstance(n, ast.Starred) and isinstance(n.value, ast.Name)
+                          and n.value.id == var}
+            if any(isinstance(n, ast.Name) and n.id == var and id(n) not in starred_ok for n in ast.walk(expr)):
+                continue
+        # free names: bound at most once in the enclosing function, so reading them at the call site is reading the same value
+        stores: Dict[str, int] = {}
+        for n in ast.walk(fn):
+            if any(n is m for m in ast.walk(g)):
+                continue
+            if isinstance(n, ast.Name) and isinstance(n.ctx, (ast.Store, ast.Del)):
+                stores[n.id] = stores.get(n.id, 0) + 1
+        free = {n.id for n in ast.walk(expr) if isinstance(n, ast.Name) and n.id not in params and n.id != var}
+        fparams = {x.arg for x in fn.args.posonlyargs + fn.args.args + fn.args.kwonlyargs}
+        if any(stores.get(v, 0) > 1 or (v in fparams and stores.get(v, 0) > 0) for v in free):
+            continue
+        # parameters are substituted textually: each is used at most once, or the argument is a plain name / constant / chain
+        counts = {p_: sum(1 for n in ast.walk(expr) if isinstance(n, ast.Name) and n.id == p_) for p_ in params}
+        if any(counts[p_] > 1 and not all(_simple_arg(c.args[i]) for c in calls) for i, p_ in enumerate(params)):
+            continue
+
+        class Sub(ast.NodeTransformer):
+            def __init__(self, call):
+                self.m = {p_: call.args[i] for i, p_ in enumerate(params)}
+                self.rest = list(call.args[len(params):])
+
+            def visit_Call(self, c):
+                new_args = []
+                for x in c.args:
+                    if isinstance(x, ast.Starred) and isinstance(x.value, ast.Name) and x.value.id == var:
+                        new_args.extend(copy.deepcopy(r) for r in self.rest)
+                    else:
+                        new_args.append(x)
+                c.args = new_args
+                self.generic_visit(c)
+                return c
+
+            def visit_Name(self, n):
+                if n.id in self.m and isinstance(n.ctx, ast.Load):
+                    return copy.deepcopy(self.m[n.id])
+                return n
+
+        class Repl(ast.NodeTransformer):
+            def visit_FunctionDef(self, node):
+                return node if node is g else self.generic_visit(node)
+
+            def visit_Call(self, c):
+                self.generic_visit(c)
+                if isinstance(c.func, ast.Name) and c.func.id == g.name:
+                    return ast.copy_location(_JoinSingle().visit(Sub(c).visit(copy.deepcopy(expr))), c)
+                return c
+        fn.body = [st for st in fn.body if st is not g]
+        for i, st in enumerate(fn.body):
+            fn.body[i] = Repl().visit(st)
+        ast.fix_missing_locations(fn)
+        changed = True
+    return changed
+
+
+def _accumulate_to_comp(fn: ast.FunctionDef) -> bool:
+    """L = []  directly followed by  for T in XS: L.append(E)   (optionally under one `if c:` without else; nothing else in the
+    loop, L not read in E/c/XS): the same list as  L = [E for T in XS if c]."""
+    changed = False
+    for owner in ast.walk(fn):
+        for field in ("body", "orelse", "finalbody"):
+            block = getattr(owner, field, None)
+            if not isinstance(block, list):
+                continue
+            i = 0
+            while i + 1 < len(block):
+                a, lp = block[i], block[i + 1]
+                i += 1
+                if not (isinstance(a, ast.Assign) and len(a.targets) == 1 and isinstance(a.targets[0], ast.Name)
+                        and isinstance(a.value, ast.List) and not a.value.elts and isinstance(lp, ast.For) and not lp.orelse
+                        and len(lp.body) == 1):
+                    continue
+                name = a.targets[0].id
+                inner, cond = lp.body[0], None
+                if isinstance(inner, ast.If) and not inner.orelse and len(inner.body) == 1:
+                    inner, cond = inner.body[0], inner.test
+                if not (isinstance(inner, ast.Expr) and isinstance(inner.value, ast.Call) and isinstance(inner.value.func, ast.Attribute)
+                        and inner.value.func.attr == "append" and isinstance(inner.value.func.value, ast.Name)
+                        and inner.value.func.value.id == name and len(inner.value.args) == 1 and not inner.value.keywords):
+                    continue
+                elt = inner.value.args[0]
+                reads = [n for part in (elt, cond, lp.iter, lp.target) if part is not None for n in ast.walk(part)
+                         if isinstance(n, ast.Name) and n.id == name]
+                if reads or any(isinstance(n, (ast.Yield, ast.YieldFrom, ast.Await, ast.NamedExpr)) for n in ast.walk(lp)):
+                    continue
+                comp = ast.ListComp(elt=elt, generators=[ast.comprehension(target=lp.target, iter=lp.iter,
+                                                                              ifs=[cond] if cond is not None else [], is_async=0)])
+                a.value = ast.copy_location(comp, a.value)
+                del block[i]
+                ast.fix_missing_locations(a)
+                changed = True
+    return changed
+
+
+def _pure_cell(e: ast.expr) -> bool:
+    """A constant, a name or an attribute chain on a name: reading it again gives the same value."""
+    while isinstance(e, (ast.Attribute, ast.Subscript)):
+        if isinstance(e, ast.Subscript) and not _pure_cell(e.slice):
+            return False
+        e = e.value
+    return isinstance(e, (ast.Name, ast.Constant))
+
+
+def _inline_display_rows(st: ast.For, display: Optional[ast.expr] = None) -> Optional[List[ast.expr]]:
+    """for a, b in [(x1, y1), (x2, y2)]: body   with the display written in place and pure cells, where the body stores neither
+    to the cells' roots nor through them: the rows (the loop is the body once per row)."""
+    it = display if display is not None else st.iter
+    if not (isinstance(it, (ast.List, ast.Tuple)) and 1 <= len(it.elts) <= 12):
+        return None
+    cells = []
+    for r in it.elts:
+        if isinstance(r, (ast.Tuple, ast.List)):
+            cells.extend(r.elts)
+        else:
+            cells.append(r)
+    if not cells or not all(_pure_cell(c) for c in cells):
+        return None
+    roots = set()
+    for c in cells:
+        roots |= {n.id for n in ast.walk(c) if isinstance(n, ast.Name)}
+    cell_texts = {ast.dump(c) for c in cells if isinstance(c, ast.Attribute)}
+    for b in st.body:
+        for n in ast.walk(b):
+            if isinstance(n, ast.Name) and isinstance(n.ctx, (ast.Store, ast.Del)) and n.id in roots:
+                return None
+            if isinstance(n, ast.Attribute) and isinstance(n.ctx, (ast.Store, ast.Del)):
+                probe = copy.deepcopy(n)
+                probe.ctx = ast.Load()
+                if ast.dump(probe) in cell_texts:
+                    return None
+    return list(it.elts)
+
+
 def _unroll_table_loops(fn: ast.FunctionDef, tables: Dict[str, ast.expr]) -> bool:
     """for a, b in TABLE: body   with TABLE a module-level literal table: one copy of the body per row, the loop variables
     replaced by the row's literals; f(*<tuple literal>, **<dict literal>) is then written out as explicit arguments."""
@@ -964,9 +1209,19 @@ def _unroll_table_loops(fn: ast.FunctionDef, tables: Dict[str, ast.expr]) -> boo
             i = 0
             while i < len(block):
                 st = block[i]
-                if isinstance(st, ast.For) and isinstance(st.iter, ast.Name) and st.iter.id in tables and not st.orelse \
-                        and not any(isinstance(n, (ast.Break, ast.Continue)) for n in ast.walk(st)):
-                    rows = tables[st.iter.id].elts
+                inline_rows = _inline_display_rows(st) if isinstance(st, ast.For) else None
+                if inline_rows is None and isinstance(st, ast.For) and isinstance(st.iter, ast.Name) and i > 0 \
+                        and isinstance(block[i - 1], ast.Assign) and len(block[i - 1].targets) == 1 \
+                        and isinstance(block[i - 1].targets[0], ast.Name) and block[i - 1].targets[0].id == st.iter.id \
+                        and sum(1 for n in ast.walk(fn) if isinstance(n, ast.Name) and n.id == st.iter.id) == 2:
+                    # rows = (<display>)  directly before  `for ... in rows:`  and no other use of the name
+                    inline_rows = _inline_display_rows(st, block[i - 1].value)
+                    if inline_rows is not None:
+                        del block[i - 1]
+                        i -= 1
+                if isinstance(st, ast.For) and ((isinstance(st.iter, ast.Name) and st.iter.id in tables) or inline_rows is not None) \
+                        and not st.orelse and not any(isinstance(n, (ast.Break, ast.Continue)) for n in ast.walk(st)):
+                    rows = inline_rows if inline_rows is not None else tables[st.iter.id].elts
                     tnames = [st.target.id] if isinstance(st.target, ast.Name) else \
                         [e.id for e in st.target.elts] if isinstance(st.target, ast.Tuple) and all(isinstance(e, ast.Name) for e in st.target.elts) else None
                     ok = tnames is not None and not any(isinstance(n, ast.Name) and n.id in tnames and isinstance(n.ctx, ast.Store)
@@ -1654,6 +1909,11 @@ def _flatten_module(tree: ast.Module, imported: Dict[str, ast.FunctionDef]) -> T
     inlined: List[str] = []
     records = _record_classes(tree)
     tables = _module_tables(tree)
+    _inline_constant_dict_copies(tree)
+    if not UNDERSCORE_ONLY:
+        for node in ast.walk(tree):
+            if isinstance(node, ast.FunctionDef):
+                _inline_expression_closures(node)
     _expand_table_comprehensions(tree, tables)
     if tables:
         for node in ast.walk(tree):
@@ -1696,6 +1956,8 @@ def _flatten_module(tree: ast.Module, imported: Dict[str, ast.FunctionDef]) -> T
     # loop fission applies to hand-written functions as well
     for node in ast.walk(tree):
         if isinstance(node, ast.FunctionDef):
+            _unroll_table_loops(node, tables)      # again: a helper may have returned the display that is iterated
+            _accumulate_to_comp(node)
             _slice_filters(node)
             _fission(node)
             _tag_fusion(node)
@@ -1735,3 +1997,209 @@ def _flatten_module(tree: ast.Module, imported: Dict[str, ast.FunctionDef]) -> T
         tree.body = new_body
     ast.fix_missing_locations(tree)
     return tree, inlined
+
+
+# ----------------------------------------------------------------------
+# dataclasses with behaviour: written out as the plain class the decorator generates
+def _is_dataclass_decorator(d: ast.expr) -> bool:
+    if isinstance(d, ast.Call):
+        d = d.func
+    return (isinstance(d, ast.Name) and d.id == "dataclass") or \
+        (isinstance(d, ast.Attribute) and d.attr == "dataclass" and isinstance(d.value, ast.Name) and d.value.id == "dataclasses")
+
+
+def _field_call(e: Optional[ast.expr], tree: ast.Module) -> Optional[ast.Call]:
+    """field(...) / dataclasses.field(...), possibly through a parameterless module-level helper that returns one."""
+    if not isinstance(e, ast.Call):
+        return None
+    f = e.func
+    if (isinstance(f, ast.Name) and f.id == "field") or (isinstance(f, ast.Attribute) and f.attr == "field"
+                                                         and isinstance(f.value, ast.Name) and f.value.id == "dataclasses"):
+        return e
+    if isinstance(f, ast.Name) and not e.args and not e.keywords:
+        for n in tree.body:
+            if isinstance(n, ast.FunctionDef) and n.name == f.id:
+                r = _is_single_return(n)
+                return _field_call(r, tree) if r is not None and r is not e else None
+    return None
+
+
+def desugar_dataclasses(tree: ast.Module) -> Tuple[ast.Module, List[str]]:
+    """A @dataclass that defines __post_init__ (a class with construction-time behaviour, not a record) and has no base class
+    is rewritten to the class the decorator generates: an explicit __init__ taking the init-fields in order (with their
+    defaults), assigning every field in declaration order, followed by the body of __post_init__.  Field declarations, the
+    decorator and __post_init__ are removed, so that every rule reads the class like a hand-written one.  Record-like
+    dataclasses (no __post_init__) are left alone.  Returns (copy of the tree, names of the rewritten classes)."""
+    tree = copy.deepcopy(tree)
+    done: List[str] = []
+    for cls in [n for n in tree.body if isinstance(n, ast.ClassDef)]:
+        if not any(_is_dataclass_decorator(d) for d in cls.decorator_list):
+            continue
+        if any(not (isinstance(b, ast.Name) and b.id == "object") for b in cls.bases) or cls.keywords:
+            continue
+        methods = {m.name: m for m in cls.body if isinstance(m, ast.FunctionDef)}
+        post = methods.get("__post_init__")
+        if post is None or "__init__" in methods or "__new__" in methods:
+            continue
+        if len(post.args.args) != 1 or post.args.vararg or post.args.kwarg or post.args.kwonlyargs \
+                or any(isinstance(n, (ast.Return, ast.Yield, ast.YieldFrom)) for n in ast.walk(post)):
+            continue
+        self_name = post.args.args[0].arg
+        params: List[ast.arg] = []
+        defaults: List[ast.expr] = []
+        body: List[ast.stmt] = []
+        fields_nodes = []
+        ok = True
+        for st in cls.body:
+            if not (isinstance(st, ast.AnnAssign) and isinstance(st.target, ast.Name)):
+                continue
+            ann = ast.unparse(st.annotation)
+            if "ClassVar" in ann:
+                continue
+            if "InitVar" in ann:
+                ok = False
+                break
+            fields_nodes.append(st)
+            name = st.target.id
+            fc = _field_call(st.value, tree)
+            init, default = True, st.value
+            if fc is not None:
+                kw = {k.arg: k.value for k in fc.keywords}
+                if fc.args or None in kw:
+                    ok = False
+                    break
+                default = kw.get("default")
+                fac = kw.get("default_factory")
+                if isinstance(kw.get("init"), ast.Constant) and kw["init"].value is False:
+                    init = False
+                elif "init" in kw and not (isinstance(kw["init"], ast.Constant) and kw["init"].value is True):
+                    ok = False
+                    break
+                if fac is not None:
+                    if init:
+                        ok = False          # a per-call default object as parameter default is not expressible literally
+                        break
+                    if isinstance(fac, ast.Name) and fac.id == "str":
+                        default = ast.Constant(value="")
+                    elif isinstance(fac, ast.Name) and fac.id == "list":
+                        default = ast.List(elts=[], ctx=ast.Load())
+                    elif isinstance(fac, ast.Name) and fac.id == "dict":
+                        default = ast.Dict(keys=[], values=[])
+                    else:
+                        default = ast.Call(func=fac, args=[], keywords=[])
+            target = ast.Attribute(value=ast.Name(id=self_name, ctx=ast.Load()), attr=name, ctx=ast.Store())
+            if init:
+                if default is None and defaults:
+                    ok = False              # dataclass itself rejects this
+                    break
+                params.append(ast.arg(arg=name, annotation=st.annotation))
+                if default is not None:
+                    defaults.append(default)
+                body.append(ast.AnnAssign(target=target, annotation=st.annotation, value=ast.Name(id=name, ctx=ast.Load()), simple=0))
+            elif default is not None:
+                body.append(ast.AnnAssign(target=target, annotation=st.annotation, value=default, simple=0))
+        if not ok or not fields_nodes:
+            continue
+        body.extend(copy.deepcopy(_body_wo_doc(post)) or [])
+        init_fn = ast.FunctionDef(name="__init__",
+                                  args=ast.arguments(posonlyargs=[], args=[ast.arg(arg=self_name)] + params, vararg=None,
+                                                     kwonlyargs=[], kw_defaults=[], kwarg=None, defaults=defaults),
+                                  body=body or [ast.Pass()], decorator_list=[], returns=ast.Constant(value=None), type_params=[])
+        new_body = []
+        placed = False
+        for st in cls.body:
+            if st in fields_nodes:
+                continue
+            if st is post:
+                new_body.append(init_fn)
+                placed = True
+                continue
+            new_body.append(st)
+        if not placed:
+            new_body.append(init_fn)
+        cls.body = new_body
+        cls.decorator_list = [d for d in cls.decorator_list if not _is_dataclass_decorator(d)]
+        ast.copy_location(init_fn, post)
+        done.append(cls.name)
+    ast.fix_missing_locations(tree)
+    return tree, done
+
+
+# ----------------------------------------------------------------------
+def expand_format_calls(tree: ast.Module) -> ast.Module:
+    """TEMPLATE.format(a, k=b) with TEMPLATE a string literal or a module-level name bound once to one, plain `{}` / `{0}` /
+    `{k}` fields (optional !conversion and literal :spec): written as the f-string it denotes, which is the form every
+    string rule reads.  Anything fancier (attribute / index fields, nested specs, *args, **kwargs) is left alone."""
+    import string
+    tree = copy.deepcopy(tree)
+    count: Dict[str, int] = {}
+    consts: Dict[str, str] = {}
+    for n in ast.walk(tree):
+        if isinstance(n, ast.Name) and isinstance(n.ctx, (ast.Store, ast.Del)):
+            count[n.id] = count.get(n.id, 0) + 1
+        elif isinstance(n, (ast.Global, ast.Nonlocal)):
+            for g in n.names:
+                count[g] = count.get(g, 0) + 2
+    for st in tree.body:
+        tgt = v = None
+        if isinstance(st, ast.Assign) and len(st.targets) == 1 and isinstance(st.targets[0], ast.Name):
+            tgt, v = st.targets[0].id, st.value
+        elif isinstance(st, ast.AnnAssign) and isinstance(st.target, ast.Name) and st.value is not None:
+            tgt, v = st.target.id, st.value
+        if tgt and count.get(tgt) == 1 and isinstance(v, ast.Constant) and isinstance(v.value, str):
+            consts[tgt] = v.value
+
+    class T(ast.NodeTransformer):
+        def visit_Call(self, c):
+            self.generic_visit(c)
+            f = c.func
+            if not (isinstance(f, ast.Attribute) and f.attr == "format"):
+                return c
+            if isinstance(f.value, ast.Constant) and isinstance(f.value.value, str):
+                template = f.value.value
+            elif isinstance(f.value, ast.Name) and f.value.id in consts:
+                template = consts[f.value.id]
+            else:
+                return c
+            if any(isinstance(a, ast.Starred) for a in c.args) or any(k.arg is None for k in c.keywords):
+                return c
+            kws = {k.arg: k.value for k in c.keywords}
+            values: List[ast.expr] = []
+            auto = 0
+            try:
+                parsed = list(string.Formatter().parse(template))
+            except ValueError:
+                return c
+            for literal, name, spec, conv in parsed:
+                if literal:
+                    values.append(ast.Constant(value=literal))
+                if name is None:
+                    continue
+                if spec and ("{" in spec or "}" in spec):
+                    return c
+                if name == "":
+                    if auto is None:
+                        return c
+                    idx, auto = auto, auto + 1
+                    if idx >= len(c.args):
+                        return c
+                    expr = c.args[idx]
+                elif name.isdigit():
+                    if auto:
+                        return c
+                    auto = None
+                    if int(name) >= len(c.args):
+                        return c
+                    expr = c.args[int(name)]
+                elif name.isidentifier() and name in kws:
+                    expr = kws[name]
+                else:
+                    return c
+                values.append(ast.FormattedValue(value=copy.deepcopy(expr), conversion=ord(conv) if conv else -1,
+                                                 format_spec=ast.JoinedStr(values=[ast.Constant(value=spec)]) if spec else None))
+            if not values:
+                return ast.copy_location(ast.Constant(value=""), c)
+            return ast.copy_location(ast.JoinedStr(values=values), c)
+    tree = T().visit(tree)
+    ast.fix_missing_locations(tree)
+    return tree
